@@ -34,7 +34,6 @@ import (
 	"go/parser"
 	"go/token"
 	"path/filepath"
-	"sort"
 	"strconv"
 	"strings"
 	"unicode"
@@ -472,7 +471,10 @@ func (t *translator) signature(fd *ast.FuncDecl) string {
 	}
 	sb.WriteString(fd.Name.Name + "(" + fl(fd.Type.Params) + ")")
 	if r := fl(fd.Type.Results); r != "" {
-		sb.WriteString(" (" + r + ")")
+		if strings.ContainsAny(r, " ,") {
+			r = "(" + r + ")"
+		}
+		sb.WriteString(" " + r)
 	}
 	return sb.String()
 }
@@ -712,7 +714,6 @@ open Dos.Bn256
 	sb.WriteString(strings.Join(items, ",\n") + "]\n\n")
 	sb.WriteString("/-- alias patterns examined: (Go function, identified pointer parameters, translation under that\naliasing is textually the no-alias translation with the parameters identified) -/\ndef aliasTable : List (String × String × Bool) := [\n")
 	items = nil
-	sort.SliceStable(rows, func(i, j int) bool { return false })
 	for _, r := range rows {
 		items = append(items, fmt.Sprintf("  (%s, %s, %v)", ex.LeanStr(r.key), ex.LeanStr(r.pat), r.same))
 	}
